@@ -7,7 +7,7 @@
 set -u
 SRC="${1:-/verif/seeded}"
 GLOB="${2:-*}"
-ST=/tmp/dtr-selftest-$$
+ST=/tmp/dtr-selftest-$$-${SHARD:-0}
 rm -rf "$ST"; mkdir -p "$ST/out"
 git -C /repo worktree prune
 git -C /repo worktree add -q --detach "$ST/repo" HEAD || exit 2
